@@ -27,6 +27,7 @@ import oracle_graph as og
 import corr_graph as cg
 import corr_lattice as cl
 import oracle_c06 as o6
+import oracle_c07 as o7
 
 GEN_NAME = {'CONV_2D_TRANSPOSE': 'TRANSPOSE_CONV'}
 
@@ -58,11 +59,18 @@ def single_op_model(rng, opname):
     codes = [m.operatorCodes[o.opcodeIndex].builtinCode for o in m.subgraphs[0].operators]
     want = getattr(gg.B, kind)
     if want in codes:
+      if opname == 'BATCH_MATMUL':
+        # the weight-like operand must be a constant (the case the weight config applies to)
+        o = [x for x in m.subgraphs[0].operators if m.operatorCodes[x.opcodeIndex].builtinCode == want][0]
+        b = m.buffers[m.subgraphs[0].tensors[int(o.inputs[1])].buffer]
+        if b.data is None or len(b.data) == 0:
+          continue
       return mb.finish()
   return None
 
 
 def main():
+  gg.CONST_KINDS = ['normal'] * 6 + ['pos', 'neg']     # well-conditioned constants (see oracle_c07)
   out_path = sys.argv[1]
   tier = os.environ.get('VERIF_TIER', 'quick')
   seed = int(os.environ.get('VERIF_SEED', '0'))
@@ -137,6 +145,17 @@ def main():
           viol.append({'key': f'C13:accepted-pair-wrong-output:{opn}:{mode}:{gran}', 'what':
                        f'{alg} {opn} {mode} ({gran}) is accepted but the result does not track the float '
                        f'model: {v6[0]["what"][:200]}', 'input': inp})
+          continue
+      else:
+        # static range: C07's comparison with the float model on the calibration input
+        # 4-bit weights: the weight rounding noise alone (step = max|w|/7) reaches tens of percent of the
+        # output magnitude over a few dozen taps; only gross failures are reported for them
+        v7 = o7.check_case(qt, mb, out, feed, inp, collections.Counter(), [], set(),
+                           fraction=0.6 if mode.endswith('_w4') else None)
+        if v7:
+          viol.append({'key': f'C13:accepted-pair-wrong-output:{opn}:{mode}:{gran}', 'what':
+                       f'{alg} {opn} {mode} ({gran}) is accepted but the result does not track the float '
+                       f'model: {v7[0]["what"][:200]}', 'input': inp})
           continue
       dist['ran_ok'] += 1
       nontrivial.add((alg, opn, mode, wsym, gran))
